@@ -191,6 +191,21 @@ CHECKS = {
               'error > 1e-3*|opt| + 10*max(1e-5, 2^L*feastol)*(1+|v|) or both solvers over the bound; results with a reduced-accuracy solver status (ECOS "Close to '
               'optimal", seen at degree 8) are judged only when the second solver confirms. Bounded: default cuts (-30,60), degrees 4..8, <=3 exp-cone '
               'constraints; the size-limited Gurobi licence refuses the largest models (ECOS only there).')),
+    'C11': dict(
+        level='model_checking',
+        technique='TLC-generated declarations (SolverIface.tla) compiled once and solved through every installed interface; every returned vector validated by TLC against the real standard form; brute-force optimum for all-integer programs',
+        design_ref='DESIGN.md 5/C11',
+        text=('SolverIface.tla states the contract of an interface: ok(x, v) with x |= P (bounds incl. binaries intersected with user bounds, row senses, '
+              'integrality, second-order cones) and v = c.x, or fail with NaN objective / no vector / get() raising; across interfaces the same outcome and '
+              'value. TLC enumerates declarations over 15 bound patterns x C/I/B types per column x rows x senses and computes the exact optimum of the '
+              'bounded all-integer ones by exhaustive enumeration. Each declaration is compiled once; the same model is solved through SciPy/HiGHS, OR-Tools, '
+              'ECOS and Gurobi as far as they support its cone class (a quarter carry a norm / square / exp constraint); every returned vector goes back to '
+              'TLC, which decides x |= P on the REAL standard form (integer data, values scaled by 1000, tolerance widened by the rounding bound); the harness '
+              'compares values and outcomes across interfaces and with the brute-force optimum, and checks that the compiled program is unchanged by solving.'),
+        note=('Trusted: TLC; solver outcomes only relative to each other and to the brute-force optimum. ECOS is exercised on continuous programs only (its '
+              'branch-and-bound does not return on infeasible integer programs under the interface\'s 1e8 iteration limit - a hang cannot be judged) and '
+              'Gurobi runs with TimeLimit 10 s. Interfaces without an installed solver (CyLP, CPLEX, Mosek, COPT) are not claimed. Submitted-program capture '
+              'at the external solver API is not implemented; translation errors are caught through x |= P, value agreement and the brute-force optimum.')),
     'C13': dict(
         level='model_checking',
         technique='TLC model checking of Partition.tla + replay of every exported history into rsome.dro + TLC trace validation',
